@@ -128,7 +128,9 @@ def spec(method: str, items: list, ghost: list[list], arg: object) -> tuple[list
     raise AnalysisError(f"no specification for Stack.{method}")
 
 
-def check_method(fn: ast.FunctionDef, where: str, method: str, max_snapshots: int, gap: int) -> tuple[int, list[str]]:
+def check_method(fn: ast.FunctionDef, where: str, method: str, max_snapshots: int, gap: int, methods: object = None) -> tuple[int, list[str]]:
+    """``methods``: a program model of stack.py (sa/objmodel.py ClassModel), so that a method which calls another
+    method or a helper of the class on ``self`` is followed into it."""
     params = [a.arg for a in fn.args.args]
     bad: list[str] = []
     n = 0
@@ -144,7 +146,7 @@ def check_method(fn: ast.FunctionDef, where: str, method: str, max_snapshots: in
             env[params[1]] = arg
         elif len(params) > 2:
             raise AnalysisError(f"anchor vanished: {where} takes {params}")
-        ev = Ev(env, where)
+        ev = Ev(env, where, methods if methods is not None else {}, 50000)  # type: ignore[arg-type]
         desc = f"items={items!r} popped={popped!r} lengths={lengths!r}"
         want_items, want_ghost, want_ret, want_raise = spec(method, list(items), [list(g) for g in ghost], arg)
         try:
